@@ -98,6 +98,9 @@ def normalize_pair(req, impl, model):
     # compressed payloads are not interpreted by the model (bzip2 is a parameter): any error agrees
     if model == "(compressed)" and not impl.startswith("(panic"):
         impl = model
+    # C11 memory images: a schema that claims no layout prescribes nothing
+    if req.startswith("(smem ") and model in ("(ok no-layout)", "(ok unprojectable)"):
+        impl = model
     # C05 gate verdicts: the model only demands rejection when the two types do not describe the same bytes
     if req.startswith("(xload "):
         if model == "(ok free)" or (model == "(ok must-reject)" and impl == "(ok rejected)"):
